@@ -44,6 +44,8 @@ func HarnessC17Response() {
 	vfsWriteFile("templates/layouts/lay.tw", "HEADMARK [@reserve(\"r\")] TAILMARK")
 	vfsWriteFile("templates/ins.tw", "@use(\"~lay\")@insert(\"r\", o.missing)")
 	vfsWriteFile("templates/about.tw", "about @component(\"err\")") // the error page is also used as a partial
+	vfsWriteFile("templates/components/box.tw", "<box>@slot</box>")
+	vfsWriteFile("templates/slt.tw", "HEADMARK @component(\"~box\")@slot{{ nope }}@end@end TAILMARK")
 	vfsWriteFile("templates/lst.tw", "HEADMARK {{ [d, nope].join(\"/\") }} TAILMARK")
 	vfsWriteFile("templates/pct.tw", "HEADMARK {{ 7 % \"3\" }} TAILMARK") // the error message holds a '%' 
 	// the custom error page has a variable of its own; the failed page's data uses the same name with another type
@@ -73,7 +75,9 @@ func HarnessC17Response() {
 	var name string
 	var data map[string]any
 	d := string([]byte{vByte("d")})
-	switch vChoice("page", 7) {
+	switch vChoice("page", 8) {
+	case 7: // the fault sits in content that the page passes to a component slot
+		name, data = "slt", nil
 	case 6: // the fault sits in a later element of an array literal
 		name, data = "lst", map[string]any{"d": d}
 	case 5: // the value of an expression-form insert fails at run time
@@ -90,7 +94,7 @@ func HarnessC17Response() {
 		name, data = "absent", nil
 	}
 	want, wantErr := tpl.String(name, data)
-	if name == "ins" || name == "pct" || name == "absent" || name == "lst" {
+	if name == "ins" || name == "pct" || name == "absent" || name == "lst" || name == "slt" {
 		vAssert(wantErr != nil, "page-that-fails-by-construction-fails") // not derived from the code under test
 	}
 	w := &vWriter{}
